@@ -303,3 +303,18 @@ pub mod thunks {
         crate::thunks::verif_assign_thunk_blocks(objects, max_branch_range)
     }
 }
+
+/// Layout trace: with `WILD_VERIF_LAYOUT=<path>` set, the events that `layout_section_parts` processed (LOAD segment
+/// starts with the alignment used and the offsets chosen, located sections, every part with its alignment, sizes and
+/// the offsets it received) are written to that file, one per line, after a header line `H <page> <partial> <base>`.
+pub(crate) fn layout_trace(page: u64, partial: bool, base: u64, lines: &[String]) {
+    let Some(path) = std::env::var_os("WILD_VERIF_LAYOUT") else {
+        return;
+    };
+    let mut out = format!("H {page} {} {base}\n", u8::from(partial));
+    for line in lines {
+        out.push_str(line);
+        out.push('\n');
+    }
+    let _ = std::fs::write(path, out);
+}
